@@ -219,11 +219,11 @@ class ReedSolomonCodeEncoder(SystematicLinearBlockCodeEncoder):
             if reshaped_received.ndim == 1:
                 # Handle single vector case
                 reshaped_received = reshaped_received.unsqueeze(0)
-                syndrome = torch.matmul(reshaped_received, self.check_matrix.t()) % 2
+                syndrome = torch.matmul(reshaped_received, self.check_matrix.t().to(reshaped_received.dtype)) % 2
                 return syndrome.squeeze(0)
             else:
                 # Handle batch case
-                syndrome = torch.matmul(reshaped_received, self.check_matrix.t()) % 2
+                syndrome = torch.matmul(reshaped_received, self.check_matrix.t().to(reshaped_received.dtype)) % 2
                 return syndrome
 
         # Use apply_blockwise to handle tensors with arbitrary batch dimensions
